@@ -399,6 +399,12 @@ impl RenderTableCell {
         };
         size
     }
+
+    /// Return true if this cell is definitely empty (see
+    /// `RenderNode::is_shallow_empty`).
+    fn is_shallow_empty(&self) -> bool {
+        self.content.iter().all(RenderNode::is_shallow_empty)
+    }
 }
 
 #[derive(Clone, Debug)]
@@ -1411,6 +1417,25 @@ enum ChildPosition {
     End,
 }
 
+/// Find the cell which a marker for the whole of `rows` should go into, as
+/// (row, cell) indices: the first cell which is not obviously empty (an empty
+/// cell may not be shown at all, along with anything put into it), or else
+/// the first cell.
+fn first_cell_with_content(rows: &[RenderTableRow]) -> Option<(usize, usize)> {
+    let mut first_cell = None;
+    for (i, row) in rows.iter().enumerate() {
+        for (j, cell) in row.cells.iter().enumerate() {
+            if !cell.is_shallow_empty() {
+                return Some((i, j));
+            }
+            if first_cell.is_none() {
+                first_cell = Some((i, j));
+            }
+        }
+    }
+    first_cell
+}
+
 /// Prepend or append a FragmentStart (or analogous) marker to an existing
 /// RenderNode.
 fn insert_child(
@@ -1454,7 +1479,8 @@ fn insert_child(
         TableRow(ref mut rrow, _) => {
             // If the row is empty, then there isn't really anything
             // to attach the fragment start to.
-            if let Some(cell) = rrow.cells.first_mut() {
+            if let Some((_, j)) = first_cell_with_content(std::slice::from_ref(rrow)) {
+                let cell = &mut rrow.cells[j];
                 match position {
                     ChildPosition::Start => cell.content.insert(0, new_child),
                     ChildPosition::End => cell.content.push(new_child),
@@ -1463,14 +1489,13 @@ fn insert_child(
         }
 
         TableBody(ref mut rows) | Table(RenderTable { ref mut rows, .. }) => {
-            // If the row is empty, then there isn't really anything
+            // If there are no cells, then there isn't really anything
             // to attach the fragment start to.
-            if let Some(rrow) = rows.first_mut() {
-                if let Some(cell) = rrow.cells.first_mut() {
-                    match position {
-                        ChildPosition::Start => cell.content.insert(0, new_child),
-                        ChildPosition::End => cell.content.push(new_child),
-                    }
+            if let Some((i, j)) = first_cell_with_content(rows) {
+                let cell = &mut rows[i].cells[j];
+                match position {
+                    ChildPosition::Start => cell.content.insert(0, new_child),
+                    ChildPosition::End => cell.content.push(new_child),
                 }
             }
         }
